@@ -537,8 +537,8 @@ Print Assumptions bcf_fields_walk.
    it.  (What this does not contain: one Coq datatype of typed records with the dispatch on the
    header's Number/Type choosing the value decoder -- per field that is the corresponding value
    theorem; it is exercised as a whole by the `blk` and `rec` cases.) *)
-Theorem c10_record_roundtrip : forall strings contigs s infos fmts (has_rows : bool) rest,
-  wf strings -> wf contigs ->
+Theorem c10_record_roundtrip : forall strings contigs s infos fmts (has_rows : bool) hdr_samples rest,
+  wf strings -> wf contigs -> s_n_sample s <= hdr_samples ->
   site_ok strings contigs s (Z.of_nat (length infos)) (Z.of_nat (length fmts)) ->
   (forall k vb, In (k, vb) (infos ++ fmts) ->
      exists i, get_index_of strings k = Some i /\ Z.of_nat i <= 2147483647) ->
@@ -549,7 +549,7 @@ Theorem c10_record_roundtrip : forall strings contigs s infos fmts (has_rows : b
      Z.of_nat (length sb) <= 4294967295) ->
   (forall fb, enc_fields strings (map lift fmts) = Ok fb -> Z.of_nat (length fb) <= 4294967295) ->
   exists bs, enc_record strings contigs s (map lift infos) (map lift fmts) has_rows = Ok bs /\
-    dec_record strings contigs (bs ++ rest)
+    dec_record strings contigs hdr_samples (bs ++ rest)
     = Some (head_of s (Z.of_nat (length infos)) (Z.of_nat (length fmts)), infos, fmts, rest).
 Proof. exact record_full_roundtrip. Qed.
 Print Assumptions c10_record_roundtrip.
